@@ -6,6 +6,8 @@ ROOT = os.path.dirname(os.path.dirname(os.path.abspath(__file__)))
 rows = [l.rstrip("\n").split("\t") for l in open(os.path.join(ROOT, "seeded/RESULTS.tsv"))][1:]
 def what(sid):
     d = os.path.join(ROOT, "seeded", sid)
+    if not os.path.isdir(d):
+        d = os.path.join(ROOT, "seeded", "obsolete", sid)
     files = set()
     for l in open(os.path.join(d, "patch.diff")):
         m = re.match(r"\+\+\+ b/(.*)", l)
@@ -15,6 +17,8 @@ out = ["| seed | files changed | verdict of `check.py <property>` (quick) | orac
 for r in sorted(rows):
     r += [""] * (5 - len(r))
     v = {"caught:failing-input": "failing input", "caught:obligation-only": "obligation only (tie / correspondence)", "MISSED": "MISSED"}.get(r[3], r[3])
+    if not os.path.isdir(os.path.join(ROOT, "seeded", r[0])):
+        v += " — obsolete, see seeded/obsolete/README.md"
     out.append(f"| {r[0]} | {what(r[0])} | {v} | {r[4].rstrip(',').replace(',', ', ')} |")
 p = os.path.join(ROOT, "DESIGN.md"); s = open(p).read()
 b, e = "<!-- seed-table:begin -->", "<!-- seed-table:end -->"
